@@ -143,7 +143,7 @@ class BuiltinMixin:
         if isinstance(v, STuple): return SSeq(self.seq_of_tuple(v), 'list')
         if isinstance(v, SSeq): return SSeq(v.t, 'list', v.elem)
         if isinstance(v, SObj): return self.iter_object(fr, v, 'list', node)
-        if isinstance(v, SDyn): return SSeq(self.as_seq(v).t, 'list')
+        if isinstance(v, (SDyn, SIter)): return SSeq(self.as_seq(v).t, 'list')
         raise Unsupported(f'list({v!r})')
 
     def iter_object(self, fr, o, kind, node):
